@@ -600,6 +600,95 @@ def readonly_against_model(ctx, g, rng):
                         {"list": l, "query": q, "impl": repr(ri), "model": repr(m), "stream": "C16 read-only sequence protocol"})
 
 
+def set_algebra_against_model(ctx, g):
+    """The non-mutating half of the set interface (& | - ^ and their reflected forms, <= >= < > == != isdisjoint) of the five owning
+    collections: every member set of 0..4 nodes x every operand subset of a 6-node universe (members, nodes owned elsewhere, free
+    nodes), against the Coq transcription of the collections.abc.Set mixins (Model/SetAlg.v, request 51: the functions
+    C16_set_operators / C16_set_comparisons speak about) AND against built-in sets.  The operand is handed over as a set or frozenset."""
+    import itertools
+    from common import model_batch
+    makers = [
+        ("sections", lambda: g.Module(name="m"), lambda i: g.Section(name="s%d" % i)),
+        ("symbols", lambda: g.Module(name="m"), lambda i: g.Symbol("y%d" % i)),
+        ("proxies", lambda: g.Module(name="m"), lambda i: g.ProxyBlock()),
+        ("byte_intervals", lambda: g.Section(name="s"), lambda i: g.ByteInterval(size=4)),
+        ("blocks", lambda: g.ByteInterval(size=64), lambda i: (g.CodeBlock if i % 2 else g.DataBlock)(size=1, offset=i)),
+    ]
+    reqs, metas = [], []
+    for fname, mk_owner, mk_child in makers:
+        for nmem in range(0, 5):
+            owner, elsewhere = mk_owner(), mk_owner()
+            uni = [mk_child(i) for i in range(6)]
+            num = {id(x): i + 1 for i, x in enumerate(uni)}
+            coll = getattr(owner, fname)
+            for x in uni[:nmem]:
+                coll.add(x)
+            getattr(elsewhere, fname).add(uni[4])          # universe: members 1..nmem, free nodes, node 5 owned elsewhere, node 6 free
+            self_ids = [num[id(x)] for x in coll]
+            if sorted(self_ids) != list(range(1, nmem + 1)):
+                ctx.add("oracle", "not-like-builtin:add", "%s after %d adds holds %s" % (fname, nmem, sorted(self_ids)), {})
+                continue
+            s = set(self_ids)
+            for r in range(0, 7):
+                for comb in itertools.combinations(range(1, 7), r):
+                    if r >= 4 and (sum(comb) + nmem) % 3:      # all subsets up to 3 elements, a third of the larger ones
+                        continue
+                    o_ids = list(comb)
+                    other = (frozenset if (r + nmem) % 2 else set)(uni[i - 1] for i in o_ids)
+                    on = set(o_ids)
+
+                    def ids(f):
+                        try:
+                            v = f()
+                            if isinstance(v, g.util.SetWrapper) or not isinstance(v, (set, frozenset)):
+                                return ("ok", "a %s, not a plain set" % type(v).__name__)
+                            return ("ok", sorted(num[id(x)] for x in v))
+                        except Exception as e:  # noqa: BLE001
+                            return ("err", exc_name(g, e))
+
+                    def val(f):
+                        try:
+                            return ("ok", int(f()))
+                        except Exception as e:  # noqa: BLE001
+                            return ("err", exc_name(g, e))
+                    impl = [ids(lambda: coll & other), ids(lambda: coll | other), ids(lambda: coll - other), ids(lambda: other - coll), ids(lambda: coll ^ other),
+                            val(lambda: coll <= other), val(lambda: coll >= other), val(lambda: coll < other), val(lambda: coll > other),
+                            val(lambda: coll == other), val(lambda: coll != other), val(lambda: coll.isdisjoint(other))]
+                    refl = [ids(lambda: other & coll), ids(lambda: other | coll), None, None, ids(lambda: other ^ coll),
+                            val(lambda: other >= coll), val(lambda: other <= coll), val(lambda: other > coll), val(lambda: other < coll),
+                            val(lambda: other == coll), val(lambda: other != coll), None]
+                    built = [("ok", sorted(s & on)), ("ok", sorted(s | on)), ("ok", sorted(s - on)), ("ok", sorted(on - s)), ("ok", sorted(s ^ on)),
+                             ("ok", int(s <= on)), ("ok", int(s >= on)), ("ok", int(s < on)), ("ok", int(s > on)), ("ok", int(s == on)), ("ok", int(s != on)),
+                             ("ok", int(s.isdisjoint(on)))]
+                    reqs.append([51, self_ids, o_ids])
+                    metas.append((fname, self_ids, o_ids, impl, refl, built))
+    replies = model_batch(reqs)
+    names = ["&", "|", "-", "reflected -", "^", "<=", ">=", "<", ">", "==", "!=", "isdisjoint"]
+    bad = {}
+    for (fname, self_ids, o_ids, impl, refl, built), rep in zip(metas, replies):
+        ctx.count("set_algebra_cases")
+        ctx.case("set-algebra:%s:%s:%s" % (fname, sorted(self_ids), o_ids), len(self_ids) >= 1 and len(o_ids) >= 1)
+        if not isinstance(rep, list) or len(rep) != 12:
+            ctx.add("corr", "set-algebra-differs", "the model did not answer for %s %s vs %s: %r" % (fname, self_ids, o_ids, rep), {"stream": "C16 non-mutating set interface"})
+            continue
+        model = [("ok", sorted(x)) if isinstance(x, list) else ("ok", x) for x in rep]
+        for k in range(12):
+            if isinstance(rep[k], list) and len(set(rep[k])) != len(rep[k]):
+                ctx.add("corr", "set-algebra-differs", "the model's result of %s lists an element twice: %s" % (names[k], rep[k]), {"stream": "C16 non-mutating set interface"})
+            for which, got in (("", impl[k]), ("reflected ", refl[k])):
+                if got is None:
+                    continue
+                if got != built[k] and bad.get(("o", fname, k), 0) < 2:
+                    bad[("o", fname, k)] = bad.get(("o", fname, k), 0) + 1
+                    ctx.add("oracle", "not-like-builtin:" + names[k].split()[-1], "%s with members %s, %soperator %s, operand %s: gives %s, the built-in set %s"
+                            % (fname, sorted(self_ids), which, names[k], o_ids, got, built[k]), {"collection": fname, "members": self_ids, "operand": o_ids, "op": names[k]})
+                if got != model[k] and bad.get(("m", fname, k), 0) < 2:
+                    bad[("m", fname, k)] = bad.get(("m", fname, k), 0) + 1
+                    ctx.add("corr", "set-algebra-differs", "%s with members %s, %soperator %s, operand %s: gives %s, the Coq model of the Set mixins %s"
+                            % (fname, sorted(self_ids), which, names[k], o_ids, got, model[k]),
+                            {"collection": fname, "members": self_ids, "operand": o_ids, "op": names[k], "stream": "C16 non-mutating set interface"})
+
+
 def exhaustive_small_list(ctx, g):
     """Every index / bound / slice argument in -4..4 (and None) on a three-module list, each mutating call on a fresh IR: the index
     arithmetic of ir.modules against the built-in list, deterministically on every run.  After a mutating call the ownership of
@@ -822,6 +911,7 @@ def run(ctx):
     d4_stream(ctx, g)
     exhaustive_small_list(ctx, g)
     readonly_against_model(ctx, g, ctx.rng)
+    set_algebra_against_model(ctx, g)
     exhaustive_small_sets(ctx, g)
     worldgen.compare(ctx, hists, "wrappers", "C16 collection correspondence")
     ctx.cov["histories"] = nh
